@@ -1,3 +1,2 @@
-import DosModel.Model.Util
--- stub: no model driver for this property yet
-def main : IO Unit := Dos.lineLoop (fun _ => "unimplemented")
+import DosModel.Model.TblsDrv
+def main : IO Unit := Dos.Tbls.parLoop Dos.Tbls.step
